@@ -54,25 +54,25 @@ type Exec struct {
 	pc        []*Term
 
 	// per path
-	globals    map[*ssa.Global]*Object
-	initDone   map[*ssa.Package]bool
+	globals     map[*ssa.Global]*Object
+	initDone    map[*ssa.Package]bool
 	initLenient int
-	fresh      map[string]int
-	inputs     []inputVar
-	steps      int
-	strConst   map[string]*Object
-	ghost      map[string]interface{}
-	curFrame   *Frame
-	sched      *Sched
+	fresh       map[string]int
+	inputs      []inputVar
+	steps       int
+	strConst    map[string]*Object
+	ghost       map[string]interface{}
+	curFrame    *Frame
+	sched       *Sched
 
 	// config
-	unwind    int
-	maxSteps  int
-	maxPaths  int
-	harness   string
-	caseVals  map[string]int64
-	verbose   bool
-	concrete  map[string]uint64 // concrete input vector (differential mode)
+	unwind   int
+	maxSteps int
+	maxPaths int
+	harness  string
+	caseVals map[string]int64
+	verbose  bool
+	concrete map[string]uint64 // concrete input vector (differential mode)
 
 	// results
 	Paths        int
@@ -391,6 +391,11 @@ func (ex *Exec) recordFinding(kind, label string, goal *Term, known string) {
 // modelInputs renders the named harness inputs under a model (for replay and samples).
 func (ex *Exec) modelInputs(m *Model) map[string]string {
 	out := map[string]string{}
+	for name, tab := range m.UFs {
+		for args, v := range tab {
+			out["uf:"+name+"("+args+")"] = fmt.Sprintf("%d", v)
+		}
+	}
 	for _, iv := range ex.inputs {
 		if iv.t != nil {
 			out[iv.name] = fmt.Sprintf("%d", m.Eval(iv.t))
@@ -453,6 +458,14 @@ func (ex *Exec) callFunction(fn *ssa.Function, args []Value, bindings []Value, s
 	if h := ex.lookupStub(fn, name); h != nil {
 		ex.StubsUsed[stubDisplayName(fn, name)]++
 		return h(ex, fn, args)
+	}
+	if fn.Blocks == nil && fn.Pkg != nil {
+		fn.Pkg.Build()
+	}
+	if fn.Blocks == nil {
+		if o := fn.Origin(); o != nil && o.Pkg != nil {
+			o.Pkg.Build()
+		}
 	}
 	if fn.Blocks == nil {
 		panic(unsupported("function without body: " + name))
@@ -736,6 +749,7 @@ func (ex *Exec) ensureInit(pkg *ssa.Package) {
 		h(ex, pkg)
 		return
 	}
+	pkg.Build()
 	initFn := pkg.Func("init")
 	if initFn == nil || initFn.Blocks == nil {
 		return
